@@ -453,10 +453,18 @@ class World:
         import warnings
         if container is None:
             container = ConjunctiveGraph()
-            with warnings.catch_warnings():
-                warnings.simplefilter("ignore")
-                container.parse(data=text, format=rdf_format)
-        op = dict(rdfgraph.reader_view(container), op="dec_rdf")
+            logging.disable(logging.CRITICAL)       # rdflib logs every literal it cannot convert, with a traceback
+            try:
+                with warnings.catch_warnings():
+                    warnings.simplefilter("ignore")
+                    container.parse(data=text, format=rdf_format)
+            finally:
+                logging.disable(logging.NOTSET)
+        logging.disable(logging.CRITICAL)
+        try:
+            op = dict(rdfgraph.reader_view(container), op="dec_rdf")
+        finally:
+            logging.disable(logging.NOTSET)
         ser = ProvRDFSerializer()
         d = ProvDocument()
         ser.document = d
